@@ -17,17 +17,33 @@ from . import core
 
 TMP = "/tmp/c04/h5"
 SPECIAL = ["taxonomy", "Taxonomy", "KEGG_Pathways", "collapsed_ids"]
-TEXTS = ["a", "b", "gut", "skin", "é", "日本 語", "x y", "p/q", "", "semi;colon", "Z" * 23, "'q'", "tab\tin"]
-GEN_BYS = ["verif", "BIOM-Format x", "gén ü", "a \"quoted\" one", ""]
-TABLE_IDS = [None, None, "tid-1", "ид 7", "x/y"]
-GROUP_MD = [None, None, None, {"tree": ("newick", "((a,b),c);")},
-            {"tree": ("newick", "(é,ö);"), "rel": ("text", "s1<s2")}]
+NFD_TEXTS = [x for pair in core.NORMALISATION_PAIRS for x in pair]       # both spellings, as different texts
+TEXTS = ["a", "b", "gut", "skin", "é", "日本 語", "x y", "p/q", "", "semi;colon", "Z" * 23, "'q'", "tab\tin"] + \
+    core.NASTY_TEXTS + NFD_TEXTS
+GEN_BYS = ["verif", "BIOM-Format x", "gén ü", "a \"quoted\" one", "", "100% cafe\u0301", " padded \n"]
+TABLE_IDS = [None, None, "tid-1", "ид 7", "x/y", "n\u0303u %s", " id with blanks "]
+# payloads with white space at the ends (a tree read with open(path).read() ends in a newline), CRLF, other
+# line separators, non-NFC text; data types in several spellings
+GMD_PAYLOADS = ["((a,b),c);", "((a,b),c);\n", " (a,b);", "(a,b);\r\n", "\t(é,ö);  ", "(cafe\u0301,caf\u00e9);",
+                "s1<s2", " s1 < s2 ", "line1\nline2\n", "ls\u2028x\u2029", "50% of \"it\"", "ab", "x"]
+GMD_TYPES = ["newick", "newick", "text", "", "NEWICK", "nexus", "newick "]
+GMD_KEYS = ["tree", "rel", "phylogeny", "cafe\u0301", "50%"]
+
+
+def gen_gmd(rng):
+    if rng.random() < 0.55:
+        return None
+    keys = rng.sample(GMD_KEYS, rng.choice([1, 1, 2, 3]))
+    return {k: (rng.choice(GMD_TYPES), rng.choice(GMD_PAYLOADS)) for k in keys}
+
+
 ROUTES = core.ROUTES + ["sort_order", "subsample_full", "filter_half", "accessors", "copy", "dok"]
 # histories that WRITE the table once, change it in place, and then write it again (the second file is the
 # one that is checked): nothing a first write leaves behind may leak into the second file
 REWRITE_OPS = ["transform_obs", "transform_samp", "norm_obs", "norm_samp", "pa", "rankdata_obs", "rankdata_samp",
                "filter_obs", "filter_samp", "update_ids_obs", "update_ids_samp", "add_metadata_obs",
-               "add_metadata_samp", "del_metadata_obs", "del_metadata_samp", "mutate_md_obs", "mutate_md_samp", "nothing"]
+               "add_metadata_samp", "del_metadata_obs", "del_metadata_samp", "mutate_md_obs", "mutate_md_samp", "rotate_ids_obs",
+               "rotate_ids_samp", "nothing"]
 # tables derived from a live source; one is written and changed in place, the OTHER one is then written and checked
 ALIAS_ROUTES = ["alias:%s:%s" % (d, w) for d in ("copy", "sort_order", "transpose", "filter", "ctor_shared")
                 for w in ("check_source", "check_derived")]
@@ -46,7 +62,11 @@ SHIPPED = ["biom/tests/test_data/test.biom", "biom/tests/test_data/test_grp_meta
            "examples/min_sparse_otu_table.biom", "examples/rich_sparse_otu_table.biom",
            "biom/tests/test_data/test.biom"]
 OWN_HEADERS = [None, None, {"generated_by": "previous writer", "create_date": [2011, 11, 11, 11, 11, 11, 11]},
-               {"generated_by": "öwn", "create_date": None}, {"generated_by": "", "create_date": [2000, 1, 1, 0, 0, 0, 0]}]
+               {"generated_by": "öwn", "create_date": None}, {"generated_by": "", "create_date": [2000, 1, 1, 0, 0, 0, 0]},
+               # the constructor documents `create_date : str`; other producers write ctime()-style dates
+               {"generated_by": "previous writer", "create_date": "03/04/2021 10:15"},
+               {"generated_by": None, "create_date": "Tue Jul 29 16:16:36 2014"},
+               {"generated_by": "x", "create_date": "2014-07-29T16:16:36"}]
 
 
 # ----------------------------------------------------------------------------- observation of a table
@@ -275,12 +295,19 @@ def gen_ids(rng, n, prefix):
         ids[k] = rng.choice([ids[k] + " ", ids[k] + "\n", " " + ids[k], ids[k] + "\u00e9\u65e5"])
     if style == "long":
         ids = [i + ("λ" if k % 2 else "_") * rng.choice([30, 60, 200]) if k < 2 else i for k, i in enumerate(ids)]
+    if style == "mixed" and len(ids) >= 2 and rng.random() < 0.6:
+        # NFC and NFD spellings of one text are two DISTINCT IDs of the axis; texts that trip naive text handling
+        extra = core.twin_ids(rng, 1) + [prefix + x for x in rng.sample(core.NASTY_TEXTS, 2)]
+        for k, x in zip(rng.sample(range(len(ids)), min(len(ids), rng.choice([2, 3, 4]))), extra):
+            if x not in ids:
+                ids[k] = x
     return ids
 
 
 POOL = [("grp", "text"), ("na/me", "text"), ("désc", "text"), ("depth", "int"), ("big/int", "int"),
         ("ph", "float"), ("flag", "bool"), ("a/b/c", "float"), ("/lead", "bool"), ("trail/", "text")]
 # names that only LOOK like the reserved hierarchical ones (other case, prefix, suffix): ordinary categories
+NASTY_NAMES = ["pct%", "%(id)s", "{brace}", "#hash", "back\\slash", " lead", "trail ", "cafe\u0301", "caf\u00e9", "\"q"]
 LOOKALIKES = ["TAXONOMY", "taxonomy2", "kegg_pathways", "Collapsed_IDs", "KEGG_pathways", "xtaxonomy", "Taxonomy "]
 FLAT_TAX = ["k__A; p__x", "k__B", "", " k__C ;p__y; c__z ", "k__D;;c__q", "k__β; p__x y", "k__A;p__x;c__y;o__z"]
 
@@ -295,6 +322,9 @@ def gen_md(rng, ids, axis, flat_ok=False):
     cats = pool[:rng.choice([1, 1, 2, 3, 4])]
     if rng.random() < 0.3:
         cats.append((rng.choice(LOOKALIKES), rng.choice(["text", "int", "float", "bool"])))
+    if rng.random() < 0.3:
+        for nm in rng.sample(NASTY_NAMES, rng.choice([1, 2])):
+            cats.append((nm, rng.choice(["text", "int", "float", "bool"])))
     if rng.random() < 0.5:
         sp = rng.choice(["taxonomy", "collapsed_ids"] if axis == "sample" else SPECIAL)
         if sp == "taxonomy" and flat_ok and rng.random() < 0.45:
@@ -317,7 +347,7 @@ def gen_md(rng, ids, axis, flat_ok=False):
                 e[name] = rng.choice(FLAT_TAX)
             else:
                 lvl = rng.randint(1, 4)
-                v = ["%s__%s" % ("kpcofgs"[j], rng.choice(["A", "β", "x y", "q/r", "Z" * 12])) for j in range(lvl)]
+                v = ["%s__%s" % ("kpcofgs"[j], rng.choice(["A", "β", "x y", "q/r", "Z" * 12, "cafe\u0301", "50%", "\"q", "ls\u2028", " sp "])) for j in range(lvl)]
                 e[name] = tuple(v) if kind == "tuple" else v
         md.append(e)
     return md
@@ -359,14 +389,26 @@ def gen_case(rng, quick=True, empty_axes=True, flat_tax=False, allow_group=True)
             m = 0
     obs = gen_ids(rng, n, "O")
     samp = gen_ids(rng, m, "S")
-    spec = {"obs": obs, "samp": samp, "rows": core.gen_grid(rng, n, m, density, classes) if n and m else [[] for _ in range(n)],
+    if obs and samp and rng.random() < 0.15:
+        # the same texts name an observation and a sample
+        for k in range(min(len(obs), len(samp), rng.choice([1, 2, 9]))):
+            if obs[k] not in samp:
+                samp[k] = obs[k]
+    rows = core.gen_grid(rng, n, m, density, classes) if n and m else [[] for _ in range(n)]
+    if n and m and "count" not in classes and "smallcount" not in classes and rng.random() < 0.5:
+        # denormals, integers above 2**24 / 2**53, non-dyadic fractions (a float32 or text detour would change them)
+        for _ in range(rng.choice([1, 2, 3])):
+            rows[rng.randrange(n)][rng.randrange(m)] = rng.choice(
+                [16777217.0, 9007199254740993.0, 0.1, 1.0 / 3.0, 2.2250738585072014e-308, 5e-324, -1e-310,
+                 1.0000000000000002, 123456.789e3])
+    spec = {"obs": obs, "samp": samp, "rows": rows,
             "omd": gen_md(rng, obs, "observation", flat_tax), "smd": gen_md(rng, samp, "sample", flat_tax),
             "type": rng.choice(core.TYPES), "table_id": rng.choice(TABLE_IDS)}
     case = {"spec": spec, "route": route, "perm_seed": rng.randint(0, 10 ** 6),
             "generated_by": rng.choice(GEN_BYS), "compress": rng.random() < 0.5,
             "date": rng.choice([None, [2020, 1, 2, 3, 4, 5, 0], [1999, 12, 31, 23, 59, 59, 999999],
                                 [2031, 7, 9, 0, 0, 0, 120]]),
-            "ogmd": rng.choice(GROUP_MD), "sgmd": rng.choice(GROUP_MD),
+            "ogmd": gen_gmd(rng), "sgmd": gen_gmd(rng),
             # header values the table object itself carries; the file must get the writer's ARGUMENTS
             "own": rng.choice(OWN_HEADERS),
             "writer": rng.choice(["to_hdf5", "to_hdf5", "to_hdf5", "save_table", "convert"]),
@@ -380,7 +422,7 @@ def gen_case(rng, quick=True, empty_axes=True, flat_tax=False, allow_group=True)
             # what lies at the path before the write (the same path is re-used for every case anyway)
             "stale": rng.choice([None, None, None, "json", "garbage", "hdf5"]),
             "tz": rng.random() < 0.2,                       # timezone-aware creation date
-            "profile": rng.choice([None, None, "raise", "warn", "call"])}   # biom.err profile around write and loads
+            "profile": rng.choice([None, None, "raise", "warn", "call", "warnings-are-errors"])}   # biom.err profile around write and loads
     if allow_group and rng.random() < 0.12:
         # the target is an h5py.Group that is not the root: two tables in one file, /run1 and /run2
         sib = gen_case(rng, quick, empty_axes=False, flat_tax=flat_tax, allow_group=False)
@@ -445,6 +487,9 @@ def _rewrite(t, op, spec, rng, tmp):
             longest = max(len(x) for x in ids)
             t.update_ids({x: x + "\u00e9" * (1 + (longest if k == 0 else 0)) for k, x in enumerate(ids)}, axis=axis,
                          inplace=True)
+        elif op.startswith("rotate_ids"):
+            # every ID takes the name of its neighbour: all names stay, every lookup changes
+            t.update_ids({x: ids[(k + 1) % len(ids)] for k, x in enumerate(ids)}, axis=axis, inplace=True)
         elif op.startswith("del_metadata"):
             md = t.metadata(axis=axis)
             keys = sorted(md[0]) if md else []
@@ -521,6 +566,8 @@ def _entered(case, parts, finish, rng, tmp):
                     raise Unobservable("write", e)
                 with h5py.File(path, "r+") as f:        # the file announces BIOM 2.0 (same groups and datasets)
                     f.attrs["format-version"] = np.array([2, 0])
+                    if rng.random() < 0.5:              # … and carries another producer's ctime()-style date
+                        f.attrs["creation-date"] = "Tue Jul 29 16:16:36 2014"
                 try:
                     if reader == "load_table":
                         t = biom.load_table(path)
@@ -588,7 +635,8 @@ def build_table(case, tmp=None):
         own = case.get("own")
         if own:
             t.generated_by = own["generated_by"]
-            t.create_date = None if own["create_date"] is None else datetime.datetime(*own["create_date"])
+            cd = own["create_date"]
+            t.create_date = None if cd is None else cd if isinstance(cd, str) else datetime.datetime(*cd)
         return t
 
     if n == 0 or m == 0:
@@ -715,7 +763,8 @@ class profile_of:
     def __init__(self, case, src=None):
         self.cm = None
         prof = case.get("profile")
-        if prof:
+        self.strict = prof == "warnings-are-errors"
+        if prof and not self.strict:
             import biom.err
             empty_possible = src is None or not src["obs"] or not src["samp"]
             if prof == "raise" and empty_possible:
@@ -727,7 +776,8 @@ class profile_of:
     def __enter__(self):
         import warnings
         self.w.__enter__()
-        warnings.simplefilter("ignore")
+        # a caller's warnings filter: nothing the library does on a table of the domain may depend on it
+        warnings.simplefilter("error" if self.strict else "ignore")
         if self.cm is not None:
             self.cm.__enter__()
 
@@ -772,6 +822,21 @@ def leave_layout(t, case):
 
 
 
+# ONE dict object handed to many calls as `format_fs` / `parse_fs`: the library must leave it as it is
+REUSED_FORMAT_FS = {}
+REUSED_PARSE_FS = {}
+
+
+def reused_args_untouched(ctx):
+    if REUSED_FORMAT_FS or REUSED_PARSE_FS:
+        ctx.fail({"case": None}, "%s.caller-argument-dict-changed" % ctx.prop, ["reused-argument"],
+                 detail={"format_fs": sorted(map(str, REUSED_FORMAT_FS)), "parse_fs": sorted(map(str, REUSED_PARSE_FS))})
+        REUSED_FORMAT_FS.clear()
+        REUSED_PARSE_FS.clear()
+    else:
+        ctx.count("argument dicts re-used across calls left unchanged")
+
+
 def group_name(case):
     g = case.get("group")
     return None if not g else "run%d" % (g["pos"] + 1)
@@ -807,7 +872,7 @@ def write_file(case, t, path, tmp=None):
                 t.to_hdf5(h5grp=f, generated_by=case["generated_by"], compress=case["compress"], format_fs=None,
                           creation_date=date)
             elif call == "format_fs_empty":
-                t.to_hdf5(f, case["generated_by"], case["compress"], {}, date)          # all positional
+                t.to_hdf5(f, case["generated_by"], case["compress"], REUSED_FORMAT_FS, date)   # all positional
             elif call == "format_fs_unused":
                 t.to_hdf5(f, case["generated_by"], compress=case["compress"], creation_date=date,
                           format_fs={"no such category": _poison_formatter})
@@ -925,8 +990,10 @@ def write_and_read_raw(case, tmp=TMP, tag="c"):
     plant_stale(case, path)
     try:
         try:
+            case["_t0"] = datetime.datetime.now()
             with profile_of(case, src):
                 gen_by, date = write_file(case, t, path, tmp)
+            case["_t1"] = datetime.datetime.now()
         except Exception as e:                      # noqa: BLE001
             u = Unobservable("write", e, src, pre)
             try:
@@ -945,11 +1012,28 @@ def write_and_read_raw(case, tmp=TMP, tag="c"):
     return src, pre, raw, gen_by, date
 
 
+def expected_date(case, raw, date):
+    """the ISO text the creation-date attribute must hold: the supplied date, else a reading of the clock taken
+    during the call (the clock is an input of the model: the attribute is accepted as that reading only if it
+    parses as an ISO 8601 date-time lying between the start and the end of the write)"""
+    if date is not None:
+        return date.isoformat()
+    now = attr_of(raw, "creation-date")
+    v = (now or {}).get("v") if isinstance(now, dict) else None
+    t0, t1 = case.get("_t0"), case.get("_t1")
+    try:
+        d = datetime.datetime.fromisoformat(v)
+        if d.tzinfo is None and t0 is not None and t0 <= d <= t1 and d.isoformat() == v:
+            return v
+    except (TypeError, ValueError):
+        pass
+    return "<ISO 8601 reading of the clock between %s and %s>" % (t0, t1)
+
+
 def request(case, src, pre, raw, gen_by, date):
     csr, csc = views(raw, pre)
-    now = attr_of(raw, "creation-date")
-    return {"src": src, "raw": raw, "generated_by": gen_by, "date": None if date is None else date.isoformat(),
-            "now": (now or {}).get("v", "") if isinstance(now, dict) else "", "csr": csr, "csc": csc,
+    exp = expected_date(case, raw, date)
+    return {"src": src, "raw": raw, "generated_by": gen_by, "date": exp, "now": exp, "csr": csr, "csc": csc,
             "compress": case["compress"]}
 
 
@@ -1071,10 +1155,11 @@ CORPUS = [
 def wide_cases(rng):
     """size thresholds: >= 64 IDs on an axis (both axes), texts >= 64 KiB, long multi-byte IDs"""
     out = []
-    for axis in ("sample", "observation"):
-        spec = core.wide_spec(rng, axis=axis, classes=rng.choice([("count",), ("neg", "dyadic")]), md=True)
+    for axis, n_axis in (("sample", None), ("observation", None), (rng.choice(["sample", "observation"]), 520)):
+        spec = core.wide_spec(rng, n_axis=n_axis, other=2 if n_axis else None, axis=axis,
+                              classes=rng.choice([("count",), ("neg", "dyadic")]), md=n_axis is None)
         spec["table_id"] = None
-        if axis == "sample":
+        if axis == "sample" and spec["smd"] is not None:
             spec["samp"] = [s_ + ("\u00e9" if k % 7 == 0 else "") for k, s_ in enumerate(spec["samp"])]
             spec["smd"] = [dict(e, taxonomy=["k__%d" % (k % 5)] * (1 + k % 3), depth=k) for k, e in enumerate(spec["smd"])]
         case = gen_case(rng, True, empty_axes=False, allow_group=False)
@@ -1143,6 +1228,7 @@ EDGE = {
     "none-next-to-text": _edge(smd=[{"grp": None}, {"grp": "b"}]),
     "empty-lists": _edge(omd=[{"taxonomy": []}, {"taxonomy": []}, {"taxonomy": []}]),
     # refused writes (error paths): same error class in the model, table left as it was
+    "partially-annotated-axis": _edge(omd=[{"a": "x"}, None, {"a": "z"}]),
     "inconsistent-categories": _edge(omd=[{"a": "x"}, {"b": "y"}, {"a": "z"}]),
     "number-under-hierarchical-name": _edge(omd=[{"taxonomy": 5}, {"taxonomy": 6}, {"taxonomy": 7}]),
     "text-under-collapsed_ids": _edge(smd=[{"collapsed_ids": "a"}, {"collapsed_ids": "b"}]),
@@ -1201,9 +1287,11 @@ def cli_case(ctx, case, tmp=TMP):
         # fd 1 and would close the process' stdout); the duplicate of fd 1 is a second safeguard
         import biom.cli.table_converter as tc
         saved = os.dup(1)
+        case["_t0"] = datetime.datetime.now()
         try:
             res = CliRunner().invoke(tc.convert, ["-i", src_path, "-o", out_path, "--to-hdf5"])
         finally:
+            case["_t1"] = datetime.datetime.now()
             os.dup2(saved, 1)
             os.close(saved)
         if res.exit_code != 0:
@@ -1262,6 +1350,7 @@ def run(ctx):
             cli_case(ctx, case, tmp)
         if widx == 0:
             edge_stream(ctx, tmp)
+        reused_args_untouched(ctx)
     finally:
         shutil.rmtree(tmp, ignore_errors=True)
 
